@@ -454,6 +454,30 @@ func checkCase(t ev.TB, c sc.Case) {
 	} else {
 		labels = append(labels, "linebounds:no-face-extents")
 	}
+	// The same clauses on a shaper that has been used before with its font cache enabled: the text
+	// is first shaped on the other axis (same face, same size), then as the case asks.
+	{
+		var used shaping.Output
+		prev := c
+		prev.Dir ^= 2
+		if prev.Dir&2 == 0 {
+			prev.Orient = 0
+		}
+		if p := sc.Guard(func() {
+			var sh shaping.HarfbuzzShaper
+			sh.SetFontCacheSize(2)
+			sh.Shape(prev.Input(face))
+			used = sh.Shape(c.Input(face))
+		}); p == nil {
+			if err := identities(&used, "after Shape on a used shaper"); err != nil {
+				fail(err)
+			}
+			if _, err := lineBounds(&c, face, &used); err != nil {
+				fail(fmt.Errorf("on a shaper used before for the other axis: %v", err))
+			}
+			labels = append(labels, "used-shaper:compared")
+		}
+	}
 	if n, err := nominalAdvances(&c, face, info, &out); err != nil {
 		fail(err)
 	} else if n > 0 {
